@@ -16,6 +16,7 @@ import (
 	"sort"
 	"strings"
 	"sync"
+	"sync/atomic"
 	"time"
 
 	"github.com/Comcast/rulio/core"
@@ -518,10 +519,111 @@ func clearVsWrites(r *rep.Report, e rep.Env) {
 	}
 }
 
+// searchVsAdds: ids with a past (added, overwritten with other content, removed) are added
+// again while other clients search for the content being added.  Every request succeeds; after
+// all have returned, a search (live and reloaded) must find exactly the acknowledged facts:
+// that is what any sequential order of the requests gives.
+func searchVsAdds(r *rep.Report, e rep.Env) {
+	rounds := e.Pick(12, 80)
+	for round := 0; round < rounds; round++ {
+		kind := drv.Kinds[round%2]
+		store := drv.MustMem()
+		loc, err := drv.NewLoc("S", kind, store)
+		if err != nil {
+			r.Violate("", "cannot build location", nil)
+			return
+		}
+		const n = 120
+		ctx := drv.Ctx()
+		for i := 0; i < n; i++ {
+			id := fmt.Sprintf("s%d", i)
+			loc.AddFact(ctx, id, core.Map{"grp": "T", "n": float64(i)})
+			loc.AddFact(ctx, id, core.Map{"keep": "k", "n": float64(i)}) // lacks the terms grp and T
+			if i%3 != 2 {
+				loc.RemFact(ctx, id)
+			}
+		}
+		r.Journal(rep.J{"search_vs_adds": round, "state": kind})
+		var wg sync.WaitGroup
+		stop := make(chan bool)
+		gate := make(chan bool)
+		var searchErrs, addErrs int64
+		for sc := 0; sc < 3; sc++ {
+			wg.Add(1)
+			go func() {
+				defer wg.Done()
+				<-gate
+				for {
+					select {
+					case <-stop:
+						return
+					default:
+					}
+					if _, err := loc.SearchFacts(drv.Ctx(), core.Map{"grp": "T"}, false); err != nil {
+						atomic.AddInt64(&searchErrs, 1)
+					}
+				}
+			}()
+		}
+		var awg sync.WaitGroup
+		for ac := 0; ac < 3; ac++ {
+			awg.Add(1)
+			go func(ac int) {
+				defer awg.Done()
+				<-gate
+				for i := ac; i < n; i += 3 {
+					if _, err := loc.AddFact(drv.Ctx(), fmt.Sprintf("s%d", i), core.Map{"grp": "T", "n": float64(i), "again": true}); err != nil {
+						atomic.AddInt64(&addErrs, 1)
+					}
+				}
+			}(ac)
+		}
+		close(gate)
+		awg.Wait()
+		close(stop)
+		wg.Wait()
+		loc2, err := drv.NewLoc("S", kind, vstore.MemFrom(vstore.CopyState(store.State(drv.Ctx()))))
+		if err != nil {
+			r.Violate("", "reload failed: "+err.Error(), rep.J{"state": kind})
+			continue
+		}
+		count := func(l *core.Location) (int, []string) {
+			srs, err := l.SearchFacts(drv.Ctx(), core.Map{"grp": "T"}, false)
+			if err != nil {
+				return -1, nil
+			}
+			have := map[string]bool{}
+			for _, f := range srs.Found {
+				have[f.Id] = true
+			}
+			var missing []string
+			for i := 0; i < n; i++ {
+				if !have[fmt.Sprintf("s%d", i)] {
+					missing = append(missing, fmt.Sprintf("s%d", i))
+				}
+			}
+			return len(srs.Found), missing
+		}
+		nl, missL := count(loc)
+		nr, missR := count(loc2)
+		r.Case(true, fmt.Sprint("searchvsadds", e.BatchSeed(), round))
+		r.Count("search_vs_adds_rounds", 1)
+		wit := rep.J{"state": kind, "acknowledged_adds": n, "found_live": nl, "found_reloaded": nr, "missing_live": missL, "missing_reloaded": missR, "search_errors": searchErrs, "add_errors": addErrs}
+		if searchErrs > 0 || addErrs > 0 {
+			r.Violate("", "requests failed while searches and adds ran concurrently", wit)
+			continue
+		}
+		if nl != n || nr != n {
+			r.Violate("", "after concurrent searches and adds a search does not find every acknowledged fact (live vs reloaded in the witness)", wit)
+		}
+	}
+}
+
 func main() {
 	e := rep.GetEnv()
 	r := rep.New(e)
 	clearVsWrites(r, e)
+	searchVsAdds(r, e)
 	nHist := e.Pick(240, 1500)
 	rng := rand.New(rand.NewSource(e.BatchSeed()))
 	families := []string{"facts", "rules", "rules+enable", "mixed"}
